@@ -29,13 +29,13 @@ PROPS = {
         "not_decided": "that the bytes reopen to the same state; that the right value is written; crash points inside an operation",
     },
     "C03": {
-        "rules": [rules_struct.linkend("C03"), rules_struct.difatcap("C03"), rules_follow.make("R-MARK"), rules_follow.make("R-HDR", "C03"), rules_follow.make("R-BLANK"), rules_follow.make("R-INIT", "C03"), rules_own.make("C03"), rules_entry.gstore, rules_layout.run("C03"), rules_struct.cutoff, rules_struct.unit, rules_struct.freshid, rules_follow.make("R-FREEOLD", "C03"), rules_struct.hdrcount("C03"), rules_struct.hdrv3("C03"), rules_struct.parenttype("C03"), rules_struct.initkind("C03"), rules_struct.linkkeep("C03"), rules_struct.unlink("C03"), rules_struct.blankown("C03"), rules_struct.killread("C03"), rules_struct.ceil("C03"), rules_entry.slotreset("C03"), rules_guard.make("R-BEGINGUARD"), rules_follow.make("R-FREEREBUILD", "C03"), rules_struct.detach("C03"), rules_struct.namelen("C03"), rules_struct.freebeforeremove("C03"), rules_units.units("C03"), rules_struct.handon("C03"), rules_struct.slotid("C03"), rules_struct.keepcount("C03"), rules_follow.make("R-FREEALL", "C03"), rules_follow.make("R-CUTTAIL", "C03"), rules_struct.stalechain("C03"), rules_struct.allblack("C03"), rules_struct.selflink("C03"), rules_entry.ctorvalues("C03"), rules_struct.fmtconst("C03"), rules_struct.fold("C03"), rules_struct.wholetable("C03"), rules_struct.handlekind("C03"), rules_wt.reverse("C03"), rules_struct.growcount("C03"), rules_struct.difatlink("C03")],
+        "rules": [rules_struct.linkend("C03"), rules_struct.difatcap("C03"), rules_follow.make("R-MARK"), rules_follow.make("R-HDR", "C03"), rules_follow.make("R-BLANK"), rules_follow.make("R-INIT", "C03"), rules_own.make("C03"), rules_entry.gstore, rules_layout.run("C03"), rules_struct.cutoff, rules_struct.unit, rules_struct.freshid, rules_follow.make("R-FREEOLD", "C03"), rules_struct.hdrcount("C03"), rules_struct.hdrv3("C03"), rules_struct.parenttype("C03"), rules_struct.initkind("C03"), rules_struct.linkkeep("C03"), rules_struct.unlink("C03"), rules_struct.blankown("C03"), rules_struct.killread("C03"), rules_struct.ceil("C03"), rules_entry.slotreset("C03"), rules_guard.make("R-BEGINGUARD"), rules_follow.make("R-FREEREBUILD", "C03"), rules_struct.detach("C03"), rules_struct.namelen("C03"), rules_struct.freebeforeremove("C03"), rules_units.units("C03"), rules_struct.handon("C03"), rules_struct.slotid("C03"), rules_struct.keepcount("C03"), rules_follow.make("R-FREEALL", "C03"), rules_follow.make("R-CUTTAIL", "C03"), rules_struct.stalechain("C03"), rules_struct.allblack("C03"), rules_struct.selflink("C03"), rules_entry.ctorvalues("C03"), rules_struct.fmtconst("C03"), rules_struct.fold("C03"), rules_struct.wholetable("C03"), rules_struct.handlekind("C03"), rules_wt.reverse("C03"), rules_struct.growcount("C03"), rules_struct.difatlink("C03"), rules_struct.kindguard("C03")],
         "explanation": "Format-maintenance obligations visible as code shape: R-MARK (FAT/DIFAT sectors marked as such; allocated cell END_OF_CHAIN before use; freed cells FREE), R-HDR (header counts follow the chains), "
                        "R-BLANK (a removed entry's slot is overwritten with DirEntry::unallocated() on disk), R-GSTORE (no CLSID/timestamps on streams: every store to those fields is dominated by a test excluding ObjType::Stream; only storages are stamped at creation), R-OWN (allocation protocol: who may change FAT cells / free lists / initialise sectors), R-LAYOUT (symbolic walk of DirEntry::read_from/write_to and Header::read_from/write_to in control-flow order: same widths, counts and fields at the same offsets, totals 128 and 512, in-place patch offsets 68/72/76 and 40/44/60/64/68/72/76 equal the derived field offsets).",
         "not_decided": "single ownership of sectors, no orphans, chain length vs stream size, sibling-tree order and colouring: invariants over the contents of FAT and directory across histories",
     },
     "C07": {
-        "rules": [rules_entry.reloc, rules_entry.hstore, rules_own.make("C07"), rules_struct.cutoff, rules_entry.moveall, rules_struct.unlink("C07"), rules_struct.blankown("C07"), rules_struct.linkkeep("C07"), rules_follow.make("R-MARK", "C07"), rules_struct.freshid, rules_entry.fieldown("C07"), rules_follow.make("R-FREEREBUILD", "C07"), rules_struct.handon("C07"), rules_struct.slotid("C07"), rules_struct.parenttype("C07"), rules_wt.reverse("C07")],
+        "rules": [rules_entry.reloc, rules_entry.hstore, rules_own.make("C07"), rules_struct.cutoff, rules_entry.moveall, rules_struct.unlink("C07"), rules_struct.blankown("C07"), rules_struct.linkkeep("C07"), rules_follow.make("R-MARK", "C07"), rules_struct.freshid, rules_entry.fieldown("C07"), rules_follow.make("R-FREEREBUILD", "C07"), rules_struct.handon("C07"), rules_struct.slotid("C07"), rules_struct.parenttype("C07"), rules_wt.reverse("C07"), rules_struct.kindguard("C07")],
         "explanation": "A handle is bound to its stream only by a slot index, so: R-RELOC - every whole-entry store into the directory table takes a freshly constructed entry (DirEntry::new/unallocated/empty_root_entry/read_from by provenance), never a copy of another slot, and no Vec reordering is applied to the table; "
                        "R-HSTORE - all DirEntry field stores reachable (call graph) from Stream methods are confined to start_sector/stream_len, no structural directory operation is reachable from a handle, and with_dir_entry_mut is applied to the handle's own stream_id; R-OWN - FAT/MiniFAT cells, sector (re)initialisation and the free lists change only inside the allocator's protocol functions with the protocol's argument shapes (a sector taken outside the protocol could be handed to two chains, so that a write through one handle lands in another stream).",
         "not_decided": "that the bytes of other streams are untouched (sector ownership is value-level); validity of a handle after its own stream is removed",
@@ -51,14 +51,14 @@ PROPS = {
         "assumptions": ["audited sink entries (rules/sinks.json) record a human judgement made once by reading the code; the analysis re-checks only that their required guards still dominate the sink"],
     },
     "C06": {
-        "rules": [rules_io.dirtyrange("C06"), rules_struct.setlennoop("C06"), rules_io.flushfirst, rules_io.window, rules_io.posdim, rules_io.poskeep, rules_struct.cutoff, rules_zero.run, rules_struct.ceil("C06"), rules_api.errkind("C06"), rules_io.buffull("C06"), rules_io.writeat("C06"), rules_struct.initkind("C06"), rules_sink.sink("read"), rules_units.units("C06"), rules_struct.seekend("C06"), rules_struct.seekbound("C06")],
+        "rules": [rules_io.dirtyrange("C06"), rules_struct.setlennoop("C06"), rules_io.flushfirst, rules_io.window, rules_io.posdim, rules_io.poskeep, rules_struct.cutoff, rules_zero.run, rules_struct.ceil("C06"), rules_api.errkind("C06"), rules_io.buffull("C06"), rules_io.writeat("C06"), rules_struct.initkind("C06"), rules_sink.sink("read"), rules_units.units("C06"), rules_struct.seekend("C06"), rules_struct.seekbound("C06"), rules_struct.kindguard("C06")],
         "explanation": "Cache-protocol clauses of the hand-written stream buffer, decided as path properties over the MIR of every Stream method: "
                        "R-FLUSHFIRST (every window move - store to buf_offset_from_start, StreamBuffer::clear, refill_with - is preceded on every path by the ok successor of flush_changes, with no mark_modified in between) and "
                        "R-WINDOW (after the window offset is stored, every path to any return, error exits included, passes clear or a successful refill), R-POSDIM (every value stored as window offset or stream length is a stream position - old offset + buffer-relative amount, current_position(), or a validated absolute target - never a bare buffer cursor), R-ERRKIND rows (the five out-of-range seeks are InvalidInput).",
         "not_decided": "equality with a byte vector for all call sequences and buffer sizes (values of pos/cap/offset/total_len across histories); set_len near u64::MAX",
     },
     "C08": {
-        "rules": [rules_struct.branchunit("C08"), rules_zero.run, rules_follow.make("R-INIT", "C08"), rules_io.poskeep, rules_det.short, rules_struct.ceil("C08"), rules_struct.initkind("C08"), rules_struct.keepcount("C08"), rules_units.units("C08"), rules_follow.make("R-CUTTAIL", "C08")],
+        "rules": [rules_struct.branchunit("C08"), rules_zero.run, rules_follow.make("R-INIT", "C08"), rules_io.poskeep, rules_det.short, rules_struct.ceil("C08"), rules_struct.initkind("C08"), rules_struct.keepcount("C08"), rules_units.units("C08"), rules_follow.make("R-CUTTAIL", "C08"), rules_zero.minifill("C08")],
         "explanation": "R-ZERO: in the function that stores a stream's new length (resize_stream, reached from Stream::set_len), a zero-fill event (a backend write whose data provenance is io::repeat(0) / [0; N], directly or in a direct helper) exists, is controlled only by the comparison new length > old length, and lies on every path from the 'grows' edge of that comparison to the length store (error exits excepted). "
                        "Alternatively accepted: zeroing on shrink in both chain kinds plus zeroing of newly allocated mini sectors. R-INIT: regular sectors are reset with the requested initialiser (SectorInit::Zero for stream data) on both the reuse and the append path of allocate_sector.",
         "not_decided": "that the bytes are zero and that the zero-filled range is exactly [old, new): values",
@@ -98,7 +98,7 @@ PROPS = {
         "not_decided": "no panic/hang after a failed write on half-updated state (C11's question); that the flushed bytes are the accepted bytes (values)",
     },
     "C15": {
-        "rules": [rules_struct.cutoff, rules_struct.linkend("C15"), rules_guard.make("R-REUSE.consult"), rules_follow.make("R-REUSE"), rules_guard.make("R-CAP"), rules_follow.make("R-FREEOLD", "C15"), rules_own.make("C15"), rules_struct.killread("C15"), rules_mode.rawfield("C15"), rules_struct.linkkeep("C15"), rules_struct.ceil("C15"), rules_struct.dirlen("C15"), rules_guard.make("R-BEGINGUARD"), rules_follow.make("R-FREEREBUILD", "C15"), rules_struct.trimloop("C15"), rules_struct.freebeforeremove("C15"), rules_units.units("C15"), rules_follow.make("R-BLANK"), rules_struct.keepcount("C15"), rules_follow.make("R-FREEALL", "C15"), rules_follow.make("R-CUTTAIL", "C15"), rules_wt.reverse("C15"), rules_struct.growcount("C15")],
+        "rules": [rules_struct.cutoff, rules_struct.linkend("C15"), rules_guard.make("R-REUSE.consult"), rules_follow.make("R-REUSE"), rules_guard.make("R-CAP"), rules_follow.make("R-FREEOLD", "C15"), rules_own.make("C15"), rules_struct.killread("C15"), rules_mode.rawfield("C15"), rules_struct.linkkeep("C15"), rules_struct.ceil("C15"), rules_struct.dirlen("C15"), rules_guard.make("R-BEGINGUARD"), rules_follow.make("R-FREEREBUILD", "C15"), rules_struct.trimloop("C15"), rules_struct.freebeforeremove("C15"), rules_units.units("C15"), rules_follow.make("R-BLANK"), rules_struct.keepcount("C15"), rules_follow.make("R-FREEALL", "C15"), rules_follow.make("R-CUTTAIL", "C15"), rules_wt.reverse("C15"), rules_struct.growcount("C15"), rules_struct.kindguard("C15")],
         "explanation": "R-REUSE: (a) every append path of allocate_sector / allocate_mini_sector / allocate_dir_entry is dominated by the 'nothing free' outcome of the free-list query (guard atoms); (b) every free feeds the list (free_sector => set_fat(FREE) + free_sectors.push on all Ok paths; likewise mini sectors; free_chain frees each visited sector); (c) validate rebuilds both lists from exactly the FREE cells. "
                        "R-CAP: the branch guarding each extension of the mini-stream chain and of the MiniFAT chain has the chain's physical length (Chain::len / num_sectors) in its condition, not only the logical length that shrinks on release. R-FREEOLD: wherever a stream that already has a chain is moved to a freshly started chain (mini<->regular migration), and before a removed stream's entry goes away, the old chain is freed first on every path.",
         "not_decided": "that file size is constant from the second repetition of any net-zero cycle (values of the free lists over histories); LIFO order; truncation of the file (the code has none)",
